@@ -600,6 +600,16 @@ def gen_defs(tier, seed):
                 ds.append({'id': f'c{ci}m{k}r', 'feature': feature, 'def': td, 'family': fam, 'crate': ci, 'mod': 2000 + k,
                            'twin_of': base['id'], 'twin_kind': 'ren', 'hook_map': mapping})
         crates.append(ds)
+    # deterministic: the four generated shapes (x context mode, alternating), every hook kind at both levels
+    full = []
+    for k, (asy, pay) in enumerate(((False, False), (False, True), (True, False), (True, True))):
+        d = T.full_def(asy, pay, concrete=bool(k % 2), dynamic=True, ptype=('PayC' if k == 3 else 'Pay'))
+        base = {'id': f'full{k}', 'feature': False, 'def': d, 'family': 'full', 'crate': len(crates), 'mod': 7000 + k}
+        full.append(base)
+        if asy:
+            full.append({'id': f'full{k}s', 'feature': False, 'def': [it for it in d if it[0] != 'async'], 'family': 'full',
+                         'crate': len(crates), 'mod': 7100 + k, 'twin_of': base['id'], 'twin_kind': 'sync'})
+    crates.append(full)
     return crates
 
 def run(tier, seed, work, repo, suspects=None, strict_suspects=None):
@@ -751,7 +761,7 @@ def run(tier, seed, work, repo, suspects=None, strict_suspects=None):
             shape = f"async={info['async']},concrete={info['concrete']},payload={any(e['payload'] for e in info['events'])},dynamic={info['dynamic']}"
             result['shapes'][shape] = result['shapes'].get(shape, 0) + 1
             fams = []
-            if x.get('suspect') or x['family'] == 'hier' or any(not sp['leaf'] for sp in info['storage']):
+            if x.get('suspect') or x['family'] in ('hier', 'full') or any(not sp['leaf'] for sp in info['storage']):
                 for ops in T.scn_edges(info, x['def']):
                     fams.append(('edges', ops))
                 if x.get('suspect'):
